@@ -499,6 +499,66 @@ func c15(c *Ctx) {
 		play(s, "random", !c.Quick())
 	}
 
+	// (2b) non-uniform splits (random cut points) and a second 0x1210 in mid-session (every Package starts again)
+	nnu := 40
+	if !c.Quick() {
+		nnu = 2000
+	}
+	for i := 0; i < nnu; i++ {
+		size := 2 + rng.Intn(60)
+		s := newSession(2, []int{size, 1 + rng.Intn(9)}, []int{64, 4})
+		var tl []AttSeg
+		last := 0
+		for _, p := range append(RandCuts(rng, size, 1+rng.Intn(5)), size) {
+			tl = append(tl, AttSeg{O: uint32(last), L: uint32(p - last)})
+			last = p
+		}
+		s.files[0].tiles = tl
+		s.units = append(s.units, ctrl(s, 0x1210, 0), ctrl(s, 0x1211, 0))
+		for _, t := range rng.Perm(len(tl)) {
+			if rng.Intn(3) > 0 {
+				s.units = append(s.units, chunk(s, 0, t))
+			}
+		}
+		s.units = append(s.units, chunk(s, 1, 0), ctrl(s, 0x1212, 0))
+		if i%2 == 0 {
+			s.units = append(s.units, ctrl(s, 0x1210, 0)) // announced again: nothing received counts any more
+			s.units = append(s.units, ctrl(s, 0x1212, 1))
+		}
+		for _, t := range rng.Perm(len(tl)) {
+			s.units = append(s.units, chunk(s, 0, t))
+			if rng.Intn(4) == 0 {
+				s.units = append(s.units, chunk(s, 0, rng.Intn(len(tl))))
+			}
+		}
+		s.units = append(s.units, ctrl(s, 0x1212, 0), ctrl(s, 0x1212, 1))
+		play(s, "non-uniform", false)
+	}
+
+	// (2c) a zero-length chunk (legal on the wire, not a piece of any split): the server records (offset, 0) and
+	// StatisticalMissSegments then cuts the missing range at that offset - two adjacent ranges instead of the one
+	// maximal range C16 promises.  Known finding C15/zero-length-chunk.
+	for _, d := range AttDialects {
+		s := newSession(1, []int{10}, []int{5})
+		s.d = d
+		nm := s.files[0].name
+		segs := [][]byte{ctrl(s, 0x1210, 0).bytes, Chunk(d, nm, 5, nil), ctrl(s, 0x1212, 0).bytes}
+		req := AttRequest(d, segs)
+		res := AttRun(d, segs, nil)
+		c.Case(req, AttCanon(res), true)
+		c.Count("zero-length-chunk")
+		frames, _ := SplitFrames(res.Wire)
+		if len(frames) == 2 {
+			if _, _, _, _, body, ok := Parse808(frames[1]); ok {
+				if _, _, _, _, list, ok2 := Ref9212(body); ok2 && !AttSegsEq(list, []AttSeg{{O: 0, L: 10}}) {
+					c.Violate(Violation{Signature: "C15/zero-length-chunk",
+						What:  "after a zero-length chunk at offset 5 of an otherwise empty 10-byte file the 0x9212 report is not the maximal missing range",
+						Input: req, Observed: AttSegsStr(list), Required: AttSegsStr([]AttSeg{{O: 0, L: 10}})})
+				}
+			}
+		}
+	}
+
 	// (3) malformed / hostile streams: correspondence of the mechanism (fatal paths, half units)
 	nmal := 1500
 	if !c.Quick() {
